@@ -44,6 +44,14 @@ def setup(w, name="", tier="thorough", selected=None):
     w.transform(T7v, v, "let last_modified_location = fields.next().map(|field| field.origin);",
                 "#[cfg(not(kani))]\n        let last_modified_location = fields.next().map(|field| field.origin);\n"
                 "        #[cfg(kani)]\n        let last_modified_location = fields.next().map(|_| Location::default());")
+    w.transform("T9v array values are not formatted in env_c_strings (the ':'-joined formatting through core::fmt / itertools is cut; array values are outside the claim)",
+                v, """Array(values) => write!(result, "{}", values.iter().format(":")).ok()?,""",
+                """Array(values) => {
+                        if cfg!(kani) {
+                            return None;
+                        }
+                        write!(result, "{}", values.iter().format(":")).ok()?
+                    }""")
     m = "yash-env/src/variable/main.rs"
     cfg_switch(w, T7v, m, "use crate::source::Location;", "use crate::verif_bt::Location;")
     # Variable::expand takes the location of the expansion (a real Location): keep that one real
@@ -78,12 +86,10 @@ STEP_CLAUSE = {
 # variable, an existing one in every position, temporary variables lowered or cloned, holes in the per-name stack, read-only
 # entries inside and outside the scope; thorough: all 211 (step, shape, occupancy) arms
 QUICK = set("""
-assign_r_m0 assign_r_m1 assign_rr_m0 assign_rr_m1 assign_rr_m2 assign_rr_m3 assign_rv_m0 assign_rv_m1 assign_rv_m2 assign_rv_m3
-assign_rrv_m5 assign_rrv_m7 assign_rvr_m2 assign_rvr_m7 assign_rvv_m6 assign_rvv_m7
-unset_r_m1 unset_rr_m1 unset_rr_m2 unset_rr_m3 unset_rv_m1 unset_rv_m2 unset_rv_m3 unset_rrr_m1 unset_rrv_m5 unset_rvr_m5 unset_rvv_m6
-pop_rr_m3 pop_rv_m2 pop_rv_m3 pop_rrv_m5 pop_rvr_m7
-lookup_rr_m3 lookup_rv_m1 lookup_rvr_m5 attrs_rr_m3 attrs_rv_m1 push_r_m1 assign_rrv_m3
-env_r_m1 env_rr_m3 env_rv_m3 env_rrv_m5
+assign_rr_m1 assign_rr_m3 assign_rv_m1 assign_rv_m2 assign_rv_m3 assign_rrv_m3 assign_rvr_m2 assign_rvr_m7 assign_rvv_m6
+unset_rr_m2 unset_rv_m3 unset_rrr_m1 unset_rrv_m5
+pop_rr_m3 pop_rv_m2 pop_rvr_m7
+lookup_rr_m3 lookup_rvr_m5 attrs_rv_m1 push_r_m1
 """.split())
 
 
@@ -110,15 +116,19 @@ def run(tier, seed, only=None):
         "T1c: std HashMap and the per-name Vec replaced by heap-free stand-ins with the same documented contract (slot map of 3 names, vector of capacity 4; out-of-range slicing / draining panics as in std)",
         "T7v: the Location stored in a Variable / PositionalParams is replaced by a unit stand-in (only stored and reported; no scope decision reads it)",
         "simulation step: pre-state = any per-name stack over a context stack of <= 3 contexts (every shape, every occupancy), entry contents symbolic; "
-        "values are scalar strings; array values, quirks and positional parameters are outside",
-        "which command kinds push / pop which contexts (perform_assignments, function calls, built-in types) is outside: command execution (async closures)",
+        "values are scalar strings; array values, quirks and positional parameters are outside (T9v: the formatting of array values in env_c_strings is cut)",
+        "which command kinds push / pop which contexts (perform_assignments, function calls, built-in types) is outside: command execution (async closures); "
+        "the environment handed to executed programs (env_c_strings) is outside: the step was built and measured (no answer in 15 min per arm: "
+        "substring searches and CString building on strings of symbolic length)",
     ]
 
     def body():
         w = core.Workspace("c16")
         hs = [h for h in harnesses(tier) if not only or h.name in only]
         sess = setup(w, tier=tier, selected=[h.name for h in hs])
-        res = sess.run_all(hs, jobs=12)
+        # the unset arms are the slowest (250-400 s): start them first
+        hs.sort(key=lambda h: 0 if "_unset_" in h.name else (1 if "_assign_" in h.name else 2))
+        res = sess.run_all(hs, jobs=14)
         out.extra.update({"kani_build_s": round(sess.build_s, 1), "repo_state": w.repo_state,
                           "injected": w.injected, "transforms": w.transforms})
         out.add_kani_results(res, sess, core.load_known(PID), PID)
